@@ -107,3 +107,111 @@ Definition C12_nonliteral_figure_refuted := ShexStage_nonliteral_figure_refuted.
 
 (** non-vacuity: a concrete profile and two thresholds meeting the hypotheses *)
 Definition C12_nonvacuous := ShexStage_K2_nonvacuous.
+
+(** ** End to end: the two thresholds on the same graph and configuration.
+
+    [C12_threshold_only_in_shex] composed with [C12_keys_monotone]; the
+    premise [counts_ok] is discharged from P1: a class that has a profile
+    entry has an instance, its size is the number of its listings in the
+    instance dictionary, which is at most the number of triples of the graph
+    (Proofs/EndToEnd2.v: [front_entry_count], [class_count_le_graph]).  A
+    requested target class without instances has size 0 but no entry, hence no
+    constraint at any threshold.  Hypotheses left: remove_empty_shapes off,
+    well-formed thresholds, fewer than 2^53 triples (binary64 only). *)
+From Shexer Require Import Spec.Rdf Model.SerialShexc Proofs.EndToEnd2 Proofs.RunWitness.
+
+Theorem C12_run_keys_monotone : forall c thr1 thr2 g ns1 s1 ns2 s2,
+  r_remove_empty c = false -> wf_frac thr1 -> wf_frac thr2 -> fle BAlg thr1 thr2 = true ->
+  (N.of_nat (List.length g) < 2 ^ 53)%N ->
+  run_shapes BAlg c thr1 g = inl (ns1, s1) -> run_shapes BAlg c thr2 g = inl (ns2, s2) ->
+  ns1 = ns2 /\
+  Forall2 (fun sh1 sh2 =>
+    sh_name sh1 = sh_name sh2 /\ sh_class sh1 = sh_class sh2 /\ sh_n sh1 = sh_n sh2 /\
+    incl (map (skey (scfg_of c ns1)) (sh_stmts sh2)) (map (skey (scfg_of c ns1)) (sh_stmts sh1))) s1 s2.
+Proof. exact run_keys_monotone. Qed.
+Print Assumptions C12_run_keys_monotone.
+
+(** exact rationals: no bound on the graph *)
+Theorem C12_run_keys_monotone_exact : forall c thr1 thr2 g ns1 s1 ns2 s2,
+  r_remove_empty c = false -> wf_frac thr1 -> wf_frac thr2 -> fle QAlg thr1 thr2 = true ->
+  run_shapes QAlg c thr1 g = inl (ns1, s1) -> run_shapes QAlg c thr2 g = inl (ns2, s2) ->
+  ns1 = ns2 /\
+  Forall2 (fun sh1 sh2 =>
+    sh_name sh1 = sh_name sh2 /\ sh_class sh1 = sh_class sh2 /\ sh_n sh1 = sh_n sh2 /\
+    incl (map (skey (scfg_of c ns1)) (sh_stmts sh2)) (map (skey (scfg_of c ns1)) (sh_stmts sh1))) s1 s2.
+Proof. exact run_keys_monotone_exact. Qed.
+Print Assumptions C12_run_keys_monotone_exact.
+
+(** the discharged premise, for any profile the front produces *)
+Theorem C12_run_counts_ok : forall c g ns P C,
+  front c g = inl (P, C) -> (N.of_nat (List.length g) < 2 ^ 53)%N ->
+  counts_ok (scfg_of c ns) b_okN P C.
+Proof. exact front_counts_ok. Qed.
+Print Assumptions C12_run_counts_ok.
+
+(** non-vacuity: thresholds 0 and 1/2 on a graph where one instance
+    of three has property q (remove_empty_shapes off): both runs succeed and a key is lost *)
+Definition c12_rcfg : rcfg :=
+  {| r_tau := tau; r_targets := None; r_ns := []; r_shapes_ns := c_SHAPES_DEFAULT_NAMESPACE; r_cap := (-1)%Z;
+     r_inverse := false; r_remove_empty := false; r_discard_useless := true; r_keep_less_specific := true;
+     r_all_compliant := true; r_disable_or := true; r_allow_redundant_or := false; r_allow_opt := true;
+     r_disable_exact := false; r_disable_comments := false; r_mode := FMixed |}.
+
+Definition g_third : graph := [ty "a" "C"; ty "b" "C"; ty "c" "C"; lit "a" "q" "x"].
+
+Example C12_run_nonvacuous :
+  wf_frac thr0 /\ wf_frac (b_ratio 1 2) /\ fle BAlg thr0 (b_ratio 1 2) = true /\
+  (N.of_nat (List.length g_third) < 2 ^ 53)%N /\
+  exists ns s1 s2, run_shapes BAlg c12_rcfg thr0 g_third = inl (ns, s1) /\
+                   run_shapes BAlg c12_rcfg (b_ratio 1 2) g_third = inl (ns, s2) /\
+                   map (fun sh => List.length (sh_stmts sh)) s1 <> map (fun sh => List.length (sh_stmts sh)) s2.
+Proof.
+  split; [vm_compute; split; [discriminate | reflexivity]|].
+  split; [vm_compute; split; [discriminate | reflexivity]|].
+  split; [vm_compute; reflexivity|]. split; [vm_compute; reflexivity|].
+  do 3 eexists. split; [vm_compute; reflexivity|]. split; [vm_compute; reflexivity|].
+  vm_compute. discriminate.
+Qed.
+
+(** all_classes mode (no target classes), both thresholds <= 1:
+    remove_empty_shapes may be on -- every shape keeps the constraint on the
+    instantiation property (Props/C14.v, [C14_no_empty_shape_all_classes]), so
+    the shape-level cleaning removes nothing and the shapes still correspond
+    one to one *)
+Theorem C12_run_keys_monotone_all_classes : forall c thr1 thr2 g ns1 s1 ns2 s2,
+  r_targets c = None -> wf_frac thr1 -> wf_frac thr2 ->
+  fle BAlg thr1 thr2 = true -> fle BAlg thr2 (fone BAlg) = true ->
+  (N.of_nat (List.length g) < 2 ^ 53)%N ->
+  run_shapes BAlg c thr1 g = inl (ns1, s1) -> run_shapes BAlg c thr2 g = inl (ns2, s2) ->
+  ns1 = ns2 /\
+  Forall2 (fun sh1 sh2 =>
+    sh_name sh1 = sh_name sh2 /\ sh_class sh1 = sh_class sh2 /\ sh_n sh1 = sh_n sh2 /\
+    incl (map (skey (scfg_of c ns1)) (sh_stmts sh2)) (map (skey (scfg_of c ns1)) (sh_stmts sh1))) s1 s2.
+Proof. exact run_keys_monotone_all_classes. Qed.
+Print Assumptions C12_run_keys_monotone_all_classes.
+
+Example C12_run_all_classes_nonvacuous :
+  r_targets base_rcfg = None /\ r_remove_empty base_rcfg = true /\
+  fle BAlg (b_ratio 1 2) (fone BAlg) = true /\
+  exists ns s1 s2, run_shapes BAlg base_rcfg thr0 g_third = inl (ns, s1) /\
+                   run_shapes BAlg base_rcfg (b_ratio 1 2) g_third = inl (ns, s2) /\
+                   map (fun sh => List.length (sh_stmts sh)) s1 <> map (fun sh => List.length (sh_stmts sh)) s2.
+Proof.
+  split; [reflexivity|]. split; [reflexivity|]. split; [vm_compute; reflexivity|].
+  do 3 eexists. split; [vm_compute; reflexivity|]. split; [vm_compute; reflexivity|].
+  vm_compute. discriminate.
+Qed.
+
+(** any mode, remove_empty_shapes on or off, both thresholds <= 1, no class
+    IRI starting with '%' or "@" ([class_iris_ok]) *)
+Theorem C12_run_keys_monotone_valid : forall c thr1 thr2 g ns1 s1 ns2 s2,
+  class_iris_ok c g = true -> wf_frac thr1 -> wf_frac thr2 ->
+  fle BAlg thr1 thr2 = true -> fle BAlg thr2 (fone BAlg) = true ->
+  (N.of_nat (List.length g) < 2 ^ 53)%N ->
+  run_shapes BAlg c thr1 g = inl (ns1, s1) -> run_shapes BAlg c thr2 g = inl (ns2, s2) ->
+  ns1 = ns2 /\
+  Forall2 (fun sh1 sh2 =>
+    sh_name sh1 = sh_name sh2 /\ sh_class sh1 = sh_class sh2 /\ sh_n sh1 = sh_n sh2 /\
+    incl (map (skey (scfg_of c ns1)) (sh_stmts sh2)) (map (skey (scfg_of c ns1)) (sh_stmts sh1))) s1 s2.
+Proof. exact run_keys_monotone_valid. Qed.
+Print Assumptions C12_run_keys_monotone_valid.
